@@ -93,4 +93,20 @@ example :
       [⟨3, 100, 50, [7, 8], 1⟩, ⟨4, 101, 60, [7, 9], 2⟩, ⟨5, 102, 60, [6, 7], 2⟩] =
       ([⟨100, 50, 1, 3⟩, ⟨101, 60, 2, 4⟩, ⟨102, 60, 2, 5⟩], false) := by decide
 
+/-- the polling loop (`eonPubKeyHandler.loop` with `stopOnErrors = false`, what `newEonPubKeyHandler` sets): one
+    tick per interval over whatever is pending then; a tick that ends in an error is logged and the loop goes on -/
+def poll (me : Addr) (mode : Mode) (accepts : Handed → Bool) (intervals : List (List Row)) : List Handed :=
+  intervals.flatMap (fun rows => (tick me mode accepts rows).1)
+
+/-- **Every interval.**  Whatever happened in the intervals before — keys refused by the mechanism, ticks ended
+    by an error — and whatever happens afterwards: the keys of an interval whose rows are all for keyper sets the
+    keyper belongs to and all accepted by the mechanism are handed over in that interval, each once, in order. -/
+theorem C20_every_interval (me : Addr) (mode : Mode) (hm : mode ≠ .neither) (accepts : Handed → Bool)
+    (before after : List (List Row)) (rows : List Row)
+    (hgood : ∀ r ∈ rows, Row.Good me r) (hacc : ∀ r ∈ rows, accepts (expected r) = true) :
+    poll me mode accepts (before ++ rows :: after) =
+      poll me mode accepts before ++ rows.map expected ++ poll me mode accepts after := by
+  unfold poll
+  rw [List.flatMap_append, List.flatMap_cons, C20_all_once me mode hm accepts rows hgood hacc, List.append_assoc]
+
 end Shutter.Properties.C20
